@@ -1,9 +1,23 @@
 """Network-side instruments: I2 tape with one action sequence, I3 taps, I4 packet identity,
 I5 scripted distributions, I11 drivers that diversify same-instant order.
 """
+import signal
 import traceback
 
 from . import kern
+
+
+class CpuBudgetExceeded(Exception):
+    """raised (ITIMER_VIRTUAL = CPU time of this process, independent of machine load) when one
+    case burns orders of magnitude more CPU than any legitimate case: the code under test is
+    spinning without yielding to the kernel."""
+
+
+CPU_BUDGET_S = 30
+
+
+def _on_budget(signum, frame):
+    raise CpuBudgetExceeded("cpu budget exhausted")
 
 
 class NetTape:
@@ -145,20 +159,36 @@ class Net:
     def run(self, until=None, cap=400000):
         """env.run() with a step cap; returns None or a description of the exception"""
         env = self.env
+        signal.signal(signal.SIGVTALRM, _on_budget)
+        signal.setitimer(signal.ITIMER_VIRTUAL, CPU_BUDGET_S)
         try:
             if until is None:
+                mark = None
                 while env.peek() != float("inf"):
+                    if env.steps > cap - 10000 and mark is None:
+                        mark = env.now
                     if env.steps > cap:
-                        return "step-cap"
+                        # a violation only when the agenda is demonstrably cycling at one instant
+                        return "livelock-at-one-instant" if mark == env.now else "INCONCLUSIVE-step-cap"
                     env.step()
             else:
                 env.run(until=until)
         except Exception as e:
-            tb = traceback.extract_tb(e.__traceback__)
-            where = next((f"{f.filename.split('/onl/')[-1]}:{f.name}" for f in reversed(tb) if "/onl/" in f.filename),
-                         "harness")
+            root = e
+            while root.__cause__ is not None:       # the kernel re-raises a copy; the cause has the real frames
+                root = root.__cause__
+            tb = traceback.extract_tb(root.__traceback__)
+            where = next((f"{f.filename.split('/onl/')[-1]}:{f.name}" for f in reversed(tb)
+                          if "/onl/" in f.filename and "/onl/sim/" not in f.filename), None)
+            if where is None:
+                where = next((f"{f.filename.split('/onl/')[-1]}:{f.name}" for f in reversed(tb) if "/onl/" in f.filename),
+                             "harness")
             self.errors.append((type(e).__name__, where, repr(e)[:300]))
+            if isinstance(root, CpuBudgetExceeded):
+                return f"no-progress:cpu-budget-exhausted@{where}"
             return f"exception:{type(e).__name__}@{where}"
+        finally:
+            signal.setitimer(signal.ITIMER_VIRTUAL, 0)
         return None
 
 
